@@ -251,7 +251,7 @@ func (k *fakeKeeper) proofsFor(challenge pocutil.Hash, flags engine.WorkSpaceSta
 	var out []*engine.WorkSpaceProof
 	for _, r := range k.sc.rounds {
 		if pocutil.Hash(r.Challenge) == challenge && r.active() {
-			out = r.offerProofs()
+			out = r.offerProofs(filter)
 		}
 	}
 	k.mu.Lock()
